@@ -139,6 +139,10 @@ def snapshot(f):
             f.mesh.region.pmin.tobytes(), f.mesh.region.pmax.tobytes(), tuple(int(i) for i in f.mesh.n), f.unit)
 
 
+def snapsvalid(f):
+    return np.array(f.valid, dtype=bool)
+
+
 def leaf_value(node, n, k, lib):
     kind = node[0]
     if kind == "num":
@@ -277,6 +281,7 @@ def commute_case(draw):
 
 def check_commute(case):
     mesh, fields, arrays = build_env(case)
+    snaps = {name: snapshot(f) for name, f in fields.items()}
     a, b = fields[case["pair"][0]], fields[case["pair"][1]]
     tag("scalar-vector" if a.nvdim != b.nvdim else "same-nvdim")
     if case["op"] == "add":
@@ -292,6 +297,9 @@ def check_commute(case):
     if dict(r1.vdim_mapping) != dict(r2.vdim_mapping):
         raise Violation("commute-mapping", f"mapping {r1.vdim_mapping} vs {r2.vdim_mapping}")
     require(np.array_equal(r1.valid, r2.valid), "commute-valid")
+    for name, f in fields.items():
+        if snapshot(f) != snaps[name]:
+            raise Violation("operand-modified", f"operand {name} changed")
     # the vector operand's metadata must survive
     vecf = a if a.nvdim > 1 else (b if b.nvdim > 1 else None)
     if vecf is not None:
@@ -330,6 +338,7 @@ def check_stack(case):
 def check_special(case):
     """dot / cross / angle / abs with labels, against numpy"""
     mesh, fields, arrays = build_env(case)
+    snaps = {name: snapshot(f) for name, f in fields.items()}
     k = case["k"]
     A, B = fields["A"], fields["B"]
     a, b = arrays["A"], arrays["B"]
@@ -364,8 +373,17 @@ def check_special(case):
             ref = np.arccos(np.einsum("...l,...l->...", a, b) / (na * nb))
         good = (na > 0) & (nb > 0) & np.isfinite(ref)
         require(np.allclose(ang.array[..., 0][good], ref[good], rtol=1e-9, atol=1e-7), "angle-value")
-    for name in "AB":
-        require(np.array_equal(fields[name].array, arrays[name]), "operand-modified")
+        require(np.array_equal(ang.valid, snapsvalid(A) & snapsvalid(B)), "angle-valid")
+        if k > 1:
+            with np.errstate(all="ignore"):
+                ang2 = A.angle(tuple(range(1, k + 1)))
+                w = np.arange(1, k + 1.0)
+                ref2 = np.arccos(np.einsum("...l,l->...", a, w) / (na * np.linalg.norm(w)))
+            good2 = (na > 0) & np.isfinite(ref2)
+            require(np.allclose(ang2.array[..., 0][good2], ref2[good2], rtol=1e-9, atol=1e-7), "angle-vector-value")
+    for name, f in fields.items():
+        if snapshot(f) != snaps[name]:
+            raise Violation("operand-modified", f"operand {name} (values, validity, labels or mesh) changed")
 
 
 @st.composite
